@@ -26,7 +26,7 @@ rev = ""
 if os.path.exists(V + "/tools/reverse_patch_results.json"):
     rows = json.load(open(V + "/tools/reverse_patch_results.json"))
     rev = "| reverted fix | property | first signature reported by `./check <property> quick` |\n|---|---|---|\n" + "\n".join(
-        "| %s %s | %s | %s |" % (r[0], r[2].replace("|", "/"), r[1], ("`%s`%s" % (r[4], (" (%s)" % r[5]) if len(r) > 5 and r[5] else "")) if r[3] else "*%s*" % (r[5] if len(r) > 5 and r[5] else "not reported")) for r in rows)
+        "| %s %s | %s | %s |" % (r[0], r[2].replace("|", "/"), r[1], ("`%s`%s" % (r[4].replace("|", "/"), (" (%s)" % r[5]) if len(r) > 5 and r[5] else "")) if r[3] else "*%s*" % (r[5] if len(r) > 5 and r[5] else "not reported")) for r in rows)
 
 # seeded
 rows = []
